@@ -37,20 +37,20 @@ BUDGET = 400         # the Prolog driver stops itself after this many events
 
 
 # ------------------------------------------------------------------ generation
+# Predicate 0 = a/2: facts a(Key, Uid) with constant first arguments -> first-argument indexing is used.
+# Predicate 1 = b/2: rules b(K, T) :- T = Uid with K a variable or a constant and a variable second argument, so that
+# nothing but the first argument can be indexed; with all K variables the predicate is not indexed at all.
 def gen_case(rng):
-    """-> (l0, l1, nu, goals).  l0: clauses of the indexed predicate a/2 (all first arguments constants),
-    l1: clauses of b/2 (first arguments variables or constants)."""
+    """-> (l0, l1, nu, goals)"""
+    mode = rng.choice(["core", "core", "indexed", "indexed", "mixed", "mixed", "both"])
     keyset = rng.choice([[0, 1], [0, 1, 2], [0, 2, 4, 5], [0, 1, 2, 3, 4, 5]])
-    bmode = rng.choice(["allvar", "mixed", "mixed", "const"])
 
     def bkey():
-        if bmode == "allvar":
+        if mode == "core":
             return None
-        if bmode == "const":
-            return rng.choice(keyset)
         return None if rng.random() < 0.5 else rng.choice(keyset)
-    n0 = rng.choice([0, 1, 2, 3, 3, 4, 5])
-    n1 = rng.choice([0, 0, 1, 2, 3, 4])
+    n0 = 0 if mode in ("core", "mixed") else rng.choice([0, 1, 2, 3, 3, 4, 5])
+    n1 = 0 if mode == "indexed" else rng.choice([0, 1, 2, 3, 3, 4, 5])
     uid = 0
     l0, l1 = [], []
     for _ in range(n0):
@@ -59,10 +59,14 @@ def gen_case(rng):
         l1.append((uid, bkey())); uid += 1
     ng = rng.choice([2, 3, 3, 4, 4, 5, 5, 6, 7])
     goals = []
-    focus = rng.choice([0, 0, 0, 1, 1, None])       # mostly one predicate so that updates hit open calls
     for _ in range(ng):
-        p = focus if (focus is not None and rng.random() < 0.85) else rng.choice([0, 1])
-        q = None if rng.random() < 0.45 else rng.choice(keyset)
+        if mode in ("core", "mixed"):
+            p = 1
+        elif mode == "indexed":
+            p = 0
+        else:
+            p = rng.choice([0, 0, 1])
+        q = None if rng.random() < 0.5 else rng.choice(keyset)
         r = rng.random()
         if r < 0.30:
             goals.append(("gen", p, q))
@@ -85,6 +89,13 @@ def gen_case(rng):
     return l0, l1, uid, goals
 
 
+def indexable(case, p):
+    """does predicate p ever hold a clause with a constant first argument in this driver?"""
+    l0, l1, nu, goals = case
+    return any(k is not None for (_, k) in (l0, l1)[p]) or \
+        any(g[0] in ("assertz", "asserta") and g[1] == p and g[2] is not None for g in goals)
+
+
 def kmatch(q, k):
     return q is None or k is None or q == k
 
@@ -95,52 +106,63 @@ class TooLong(Exception):
 
 def simulate(l0, l1, nu, goals, cap=CAP):
     """Reference run under snapshot semantics (case selection, statistics and failure classification only; the
-    oracle is the Coq model).  Returns (log, info): log = [(k, obs, exposed)], obs = ('v', uid|None) | ('l', [..]) | ('n',).
-    `exposed` marks events produced by a retry of a call whose predicate was stamped (assert/retract) at a clock value in
-    [cc of the call, cc register) -- the only situation in which the known defect `retry-stale-cc` can change the result."""
+    oracle is the Coq model).  Returns (log, info): log = [(k, obs, flags)], obs = ('v', uid|None) | ('l', [..]) | ('n',).
+    flags: 'stale' = the event comes from a retry of a call whose predicate was stamped (assert/retract) at a clock value
+    in [cc of the call, cc register) -- the only situation in which the defect `retry-stale-cc` (cc restored from the choice
+    point only after the search) can change the result; 'across' = the call was open while a clause was asserted to its
+    predicate; 'asserted' / 'retracted' = the predicate of the goal was asserted to / retracted from earlier in the run."""
     db = {0: list(l0), 1: list(l1)}
     stamps = {0: [], 1: []}            # clock values at which the predicate was changed
+    nass = {0: 0, 1: 0}
+    nret = {0: 0, 1: 0}
     st = {"nu": nu, "clock": 2, "reg": 0}
     log = []
-    info = {"retries_after_update": 0, "retries": 0, "max_open": 0, "rnext_gone": 0, "exposed": 0, "updates_under_open": 0}
+    info = {"retries_after_update": 0, "retries": 0, "max_open": 0, "rnext_gone": 0, "stale": 0, "updates_under_open": 0}
     open_calls = []
 
-    def emit(k, obs, exposed=False):
+    def emit(k, obs, p, extra=()):
         if len(log) >= cap:
             raise TooLong()
-        log.append((k, obs, exposed))
+        fl = set(extra)
+        if nass[p]: fl.add("asserted")
+        if nret[p]: fl.add("retracted")
+        log.append((k, obs, fl))
 
-    def tick(p):
+    def tick(p, is_assert):
         stamps[p].append(st["clock"]); st["clock"] += 1
+        if is_assert: nass[p] += 1
+        else: nret[p] += 1
         if any(pp == p for pp in open_calls):
             info["updates_under_open"] += 1
 
     def run(k):
         if k == len(goals):
             return
-        g = goals[k]
-        kind, p, q = g
+        kind, p, q = goals[k]
         if kind in ("gen", "once"):
             snap = [u for (u, kk) in db[p] if kmatch(q, kk)]
             icc = st["clock"]; st["reg"] = icc
             if kind == "once":
-                emit(k, ("v", snap[0] if snap else None))
+                emit(k, ("v", snap[0] if snap else None), p)
                 run(k + 1)
                 return
             open_calls.append(p)
+            a0 = nass[p]
             info["max_open"] = max(info["max_open"], len(open_calls))
             for j, u in enumerate(snap + [None]):
-                exposed = False
+                extra = []
                 if j > 0:
                     info["retries"] += 1
                     if any(icc <= t for t in stamps[p]):
                         info["retries_after_update"] += 1
-                    exposed = any(icc <= t < st["reg"] for t in stamps[p])
-                    if exposed:
-                        info["exposed"] += 1
+                    if any(icc <= t < st["reg"] for t in stamps[p]):
+                        info["stale"] += 1
+                        extra.append("stale")
+                    if nass[p] > a0:
+                        extra.append("across")
                 if u is None:
                     open_calls.pop()
-                emit(k, ("v", u), exposed)
+                emit(k, ("v", u), p, extra)
                 if u is not None:
                     if j > 0:
                         st["reg"] = icc
@@ -149,22 +171,23 @@ def simulate(l0, l1, nu, goals, cap=CAP):
             snap = [u for (u, kk) in db[p] if kmatch(q, kk)]
             st["reg"] = st["clock"]
             for u in snap:
-                emit(k, ("v", u))
-                if any(x[0] == u for x in db[p]):
-                    db[p] = [x for x in db[p] if x[0] != u]
-                    tick(p)
-                else:
+                gone = not any(x[0] == u for x in db[p])
+                if gone:
                     info["rnext_gone"] += 1
+                else:
+                    db[p] = [x for x in db[p] if x[0] != u]
+                    tick(p, False)
+                emit(k, ("v", u), p)
                 run(k + 1)
-            emit(k, ("v", None))
+            emit(k, ("v", None), p)
         elif kind in ("assertz", "asserta"):
             u = st["nu"]; st["nu"] += 1
             if kind == "assertz":
                 db[p] = db[p] + [(u, q)]
             else:
                 db[p] = [(u, q)] + db[p]
-            tick(p)
-            emit(k, ("v", u))
+            emit(k, ("v", u), p)
+            tick(p, True)
             run(k + 1)
         elif kind == "retract1":
             st["reg"] = st["clock"]
@@ -172,21 +195,21 @@ def simulate(l0, l1, nu, goals, cap=CAP):
             for x in db[p]:
                 if kmatch(q, x[1]):
                     hit = x; break
+            emit(k, ("v", hit[0] if hit else None), p)
             if hit is not None:
                 db[p] = [x for x in db[p] if x is not hit]
-                tick(p)
-            emit(k, ("v", hit[0] if hit else None))
+                tick(p, False)
             run(k + 1)
         elif kind == "retractall":
             st["reg"] = st["clock"]
+            emit(k, ("n",), p)
             for x in [x for x in db[p] if kmatch(q, x[1])]:
-                tick(p)
+                tick(p, False)
             db[p] = [x for x in db[p] if not kmatch(q, x[1])]
-            emit(k, ("n",))
             run(k + 1)
         elif kind in ("listc", "listg"):
             st["reg"] = st["clock"]
-            emit(k, ("l", [u for (u, kk) in db[p] if kmatch(q, kk)]))
+            emit(k, ("l", [u for (u, kk) in db[p] if kmatch(q, kk)]), p)
             run(k + 1)
         else:
             raise ValueError(kind)
@@ -201,35 +224,43 @@ def ktxt(k):
 
 def driver(j, l0, l1, nu, goals):
     A, B = "a_%s" % j, "b_%s" % j
-    P = {0: A, 1: B}
     out = [":- dynamic(%s/2).\n:- dynamic(%s/2).\n" % (A, B)]
     for (u, k) in l0:
         out.append("%s(%s, %d).\n" % (A, ktxt(k), u))
     for (u, k) in l1:
-        out.append("%s(%s, %d).\n" % (B, ktxt(k), u))
+        out.append("%s(%s, T) :- T = %d.\n" % (B, ktxt(k), u))
     out.append("note_%s(E) :- bb_get(lg_%s, L), bb_put(lg_%s, [E|L]), length(L, N), ( N >= %d -> throw(budget_%s) ; true ).\n" % (j, j, j, BUDGET, j))
     out.append("fresh_%s(N) :- bb_get(cnt_%s, N), N1 is N+1, bb_put(cnt_%s, N1).\n" % (j, j, j))
     out.append("log_%s(L) :- bb_get(lg_%s, L0), reverse(L0, L).\n" % (j, j))
     body = []
+    n = "note_%s" % j
     for k, (kind, p, q) in enumerate(goals):
-        n = "note_%s" % j
-        call = "%s(%s, T%d)" % (P[p], ktxt(q), k)
+        T = "T%d" % k
+        if p == 0:
+            call = "%s(%s, %s)" % (A, ktxt(q), T)
+            cl = call                                   # clause term for assert / retract
+            clause = "clause(%s, true)" % call
+        else:
+            call = "%s(%s, %s)" % (B, ktxt(q), T)
+            cl = "(%s(%s, X%d) :- X%d = %s)" % (B, ktxt(q), k, k, T)
+            clause = "clause(%s(%s, X%d), X%d = %s)" % (B, ktxt(q), k, k, T)
+        head_any = "%s(%s, _)" % ((A, B)[p], ktxt(q))
         if kind == "gen":
-            body.append("( %s, %s(y(%d,T%d)) ; %s(d(%d)), fail )" % (call, n, k, k, n, k))
+            body.append("( %s, %s(y(%d,%s)) ; %s(d(%d)), fail )" % (call, n, k, T, n, k))
         elif kind == "once":
-            body.append("( %s -> %s(y(%d,T%d)) ; %s(d(%d)) )" % (call, n, k, k, n, k))
+            body.append("( %s -> %s(y(%d,%s)) ; %s(d(%d)) )" % (call, n, k, T, n, k))
         elif kind == "rgen":
-            body.append("( retract(%s), %s(y(%d,T%d)) ; %s(d(%d)), fail )" % (call, n, k, k, n, k))
+            body.append("( retract(%s), %s(y(%d,%s)) ; %s(d(%d)), fail )" % (cl, n, k, T, n, k))
         elif kind in ("assertz", "asserta"):
-            body.append("fresh_%s(T%d), %s(%s), %s(y(%d,T%d))" % (j, k, kind, call, n, k, k))
+            body.append("fresh_%s(%s), %s(%s), %s(y(%d,%s))" % (j, T, kind, cl, n, k, T))
         elif kind == "retract1":
-            body.append("( retract(%s) -> %s(y(%d,T%d)) ; %s(d(%d)) )" % (call, n, k, k, n, k))
+            body.append("( retract(%s) -> %s(y(%d,%s)) ; %s(d(%d)) )" % (cl, n, k, T, n, k))
         elif kind == "retractall":
-            body.append("retractall(%s(%s, _)), %s(n(%d))" % (P[p], ktxt(q), n, k))
+            body.append("retractall(%s), %s(n(%d))" % (head_any, n, k))
         elif kind == "listc":
-            body.append("findall(T%d, clause(%s, true), L%d), %s(l(%d,L%d))" % (k, call, k, n, k, k))
+            body.append("findall(%s, %s, L%d), %s(l(%d,L%d))" % (T, clause, k, n, k, k))
         elif kind == "listg":
-            body.append("findall(T%d, %s, L%d), %s(l(%d,L%d))" % (k, call, k, n, k, k))
+            body.append("findall(%s, %s, L%d), %s(l(%d,L%d))" % (T, call, k, n, k, k))
     out.append("run_%s :- bb_put(lg_%s, []), bb_put(cnt_%s, %d),\n    catch(( %s,\n      fail ; true ), budget_%s, true).\n"
                % (j, j, j, nu, ",\n      ".join(body), j))
     return "".join(out)
@@ -300,14 +331,13 @@ def scase(case, log):
     t.append(len(goals))
     for (kind, p, q) in goals: t += [GOALCODE[kind], p, ek(q)]
     for e in log:
-        t.append(e[0])
         o = e[1]
         if o[0] == "v":
-            t += [0] if o[1] is None else [1, o[1]]
+            t += [4 * e[0]] if o[1] is None else [4 * e[0] + 1, o[1]]
         elif o[0] == "n":
-            t.append(2)
+            t.append(4 * e[0] + 2)
         else:
-            t += [3, len(o[1])] + list(o[1])
+            t += [4 * e[0] + 3, len(o[1])] + list(o[1])
     return 'check_s "%s"' % enc_tokens(t)
 
 
@@ -372,6 +402,10 @@ def run_impl(ctx, cases, ids, tag, timeout_ms, fresh_every):
     return [impl_outcome(res.get(str(j))) for j in ids]
 
 
+def plain(log):
+    return [(e[0], e[1]) for e in log]
+
+
 def first_divergence(model_log, impl_log):
     n = 0
     while n < len(model_log) and n < len(impl_log) and model_log[n][0] == impl_log[n][0] and model_log[n][1] == impl_log[n][1]:
@@ -387,9 +421,88 @@ def fmt_log(log):
     return " ".join(o(e) for e in log)
 
 
+def classify(case, mlog, st, lg):
+    """Stable key of a failing driver, from where its log first leaves the model's log.
+    Predicates that never hold a clause with a constant first argument exercise only the generation-stamp machinery
+    (keys luv-core:*); everything else also exercises the incremental maintenance of the first-argument index of a
+    dynamic predicate (keys dyn-index:*)."""
+    d = first_divergence(plain(mlog), lg or [])
+    if st.startswith("error:") and "panic" in st and not lg:
+        # a Rust panic loses the log (the machine is rebuilt): key by the panic message
+        import re
+        msg = re.search(r'"panic": "([^"]*)', st)
+        slug = re.sub(r"[^a-z0-9]+", "-", (msg.group(1) if msg else "unknown").lower()).strip("-")[:50]
+        return d, ("dyn-index" if (indexable(case, 0) or indexable(case, 1)) else "luv-core") + ":panic:" + slug
+    if d >= len(mlog):
+        return d, "extra-events-after-the-end"
+    k, obs, flags = mlog[d]
+    kind, p, q = case[3][k]
+    if "stale" in flags and not indexable(case, p):
+        return d, "retry-stale-cc"
+    if not indexable(case, p):
+        return d, "luv-core:%s" % kind
+    if kind == "gen" and q is not None and "across" in flags:
+        return d, "dyn-index:bound-call-open-across-assert"
+    if "asserted" in flags:
+        return d, "dyn-index:after-assert"
+    if "retracted" in flags:
+        return d, "dyn-index:after-retract"
+    return d, "dyn-index:static"
+
+
+def variants(c):
+    l0, l1, nu, gs = c
+    out = []
+    for i in range(len(gs)): out.append((l0, l1, nu, gs[:i] + gs[i + 1:]))
+    for i in range(len(l0)): out.append((l0[:i] + l0[i + 1:], l1, nu, gs))
+    for i in range(len(l1)): out.append((l0, l1[:i] + l1[i + 1:], nu, gs))
+    for i, g in enumerate(gs):
+        if g[2] is not None and g[0] not in ("assertz", "asserta"):
+            out.append((l0, l1, nu, gs[:i] + [(g[0], g[1], None)] + gs[i + 1:]))
+        if g[0] == "rgen": out.append((l0, l1, nu, gs[:i] + [("retract1", g[1], g[2])] + gs[i + 1:]))
+        if g[0] == "gen": out.append((l0, l1, nu, gs[:i] + [("once", g[1], g[2])] + gs[i + 1:]))
+    return out
+
+
+class Shrinker:
+    """greedy minimisation of a failing driver (same failure key), every candidate re-run alone in a fresh machine"""
+    def __init__(self, ctx, deadline):
+        self.ctx, self.deadline, self.n = ctx, deadline, 0
+
+    def failing(self, cs, key):
+        import time
+        self.n += 1
+        outs = run_impl(self.ctx, cs, ["s%d_%d" % (self.n, i) for i in range(len(cs))], "shrink", 1200, 1)
+        res = []
+        for c, (st, lg) in zip(cs, outs):
+            try:
+                mlog = simulate(*c)[0]
+            except TooLong:
+                res.append(False); continue
+            if st == "ok" and lg == plain(mlog):
+                res.append(False)
+            else:
+                res.append(classify(c, mlog, st, lg)[1] == key)
+        return res
+
+    def shrink(self, c, key):
+        import time
+        while time.time() < self.deadline:
+            vs = variants(c)
+            if not vs:
+                break
+            fl = self.failing(vs, key)
+            nxt = [v for v, b in zip(vs, fl) if b]
+            if not nxt:
+                break
+            c = min(nxt, key=lambda v: (len(v[3]), len(v[0]) + len(v[1])))
+        return c
+
+
 def run(ctx):
+    import time
     rng = ctx.rng
-    n_cases = ctx.scale(3000, 60000)
+    n_cases = ctx.scale(2400, 60000)
     cases, mlogs, infos = [], [], []
     seen = set()
     dropped = 0
@@ -408,79 +521,78 @@ def run(ctx):
         seen.add(key)
         cases.append(case); mlogs.append(log); infos.append(info)
     ids = ["%d_%d" % (ctx.seed, n) for n in range(len(cases))]
-    outs = run_impl(ctx, cases, ids, "impl", 400, 60)
-    # anything that did not simply run to completion is re-run alone in a fresh machine with a generous timeout
-    redo = [n for n, (st, lg) in enumerate(outs) if st != "ok"]
-    if redo:
-        again = run_impl(ctx, [cases[n] for n in redo], ["r" + ids[n] for n in redo], "redo", 3000, 1)
-        for n, o in zip(redo, again):
-            outs[n] = o
-    bools = []
-    for case, (st, lg) in zip(cases, outs):
-        bools.append(scase(case, lg if (lg is not None and st == "ok") else []))
-    bad, errs = core.coq_eval_bools(ctx.prop, IMPORTS, bools, chunk=300)
+    t0 = time.time()
+    outs = run_impl(ctx, cases, ids, "impl", 600, 40 * core.NPROC)
+    t_impl = time.time() - t0
+    # the oracle: the Coq model evaluates every driver and compares the complete log
+    bools = [scase(case, lg if (lg is not None and st == "ok") else []) for case, (st, lg) in zip(cases, outs)]
+    t0 = time.time()
+    bad, errs = core.coq_eval_bools(ctx.prop, IMPORTS, bools, chunk=200)
+    t_coq = time.time() - t0
     tie_breaks = [{"kind": "coq-eval", "what": "model evaluation shard failed", "detail": t} for _, t in errs]
     bad = set(bad)
     for n, (st, lg) in enumerate(outs):
         if st != "ok":
             bad.add(n)
-    # the Python reference must agree with the Coq model wherever the implementation does (otherwise the
-    # classification below would be meaningless): Coq accepted impl log => it equals the Python log
+    # the Python reference (used only to classify failures) must agree with the Coq model: wherever Coq accepted
+    # the implementation's log, that log must be the Python log too
     for n, (st, lg) in enumerate(outs):
-        if n not in bad and [(e[0], e[1]) for e in mlogs[n]] != lg:
+        if n not in bad and plain(mlogs[n]) != lg:
             tie_breaks.append({"kind": "harness", "what": "Python reference simulation disagrees with the Coq model",
                                "detail": case_text(cases[n])})
             break
-    failures = []
-    fail_kinds = {}
+    # every failure is re-run alone in a fresh machine with a generous timeout and re-judged by the Coq model
     confirm = sorted(bad)
-    # confirm every failure alone in a fresh machine (rules out interference between jobs)
-    conf = {}
+    failing = []
+    unreproduced = 0
     if confirm:
-        again = run_impl(ctx, [cases[n] for n in confirm], ["c" + ids[n] for n in confirm], "confirm", 3000, 1)
-        conf = dict(zip(confirm, again))
-    for n in confirm:
-        st, lg = conf[n]
-        mlog = mlogs[n]
-        plain = [(e[0], e[1]) for e in mlog]
-        if st == "ok" and lg == plain:
-            tie_breaks.append({"kind": "harness", "what": "a failing driver passed when re-run alone (job interference)",
-                               "detail": case_text(cases[n])})
-            continue
-        lg = lg or []
-        d = first_divergence(plain, lg)
-        exposed = d < len(mlog) and mlog[d][2]
-        if exposed:
-            key = "retry-stale-cc"
-        else:
-            g = cases[n][3][mlog[d][0]][0] if d < len(mlog) else "extra-events"
-            key = "unexplained:%s:%s" % (g, st.split(":")[0])
+        again = run_impl(ctx, [cases[n] for n in confirm], ["c" + ids[n] for n in confirm], "confirm", 2000, 1)
+        cb = [scase(cases[n], lg if (lg is not None and st == "ok") else []) for n, (st, lg) in zip(confirm, again)]
+        cbad, cerrs = core.coq_eval_bools(ctx.prop, IMPORTS, cb, chunk=300, tag="confirmcases")
+        tie_breaks += [{"kind": "coq-eval", "what": "model evaluation shard failed", "detail": t} for _, t in cerrs]
+        cbad = set(cbad)
+        for i, (n, o) in enumerate(zip(confirm, again)):
+            if o[0] == "ok" and i not in cbad:
+                unreproduced += 1          # passed when alone: timeout under load or damage done by an earlier failing job
+            else:
+                failing.append((n, o))
+    failures, fail_kinds, by_key = [], {}, {}
+    for n, (st, lg) in failing:
+        d, key = classify(cases[n], mlogs[n], st, lg)
         fail_kinds[key + "/" + st.split(":")[0]] = fail_kinds.get(key + "/" + st.split(":")[0], 0) + 1
-        if sum(1 for f in failures if f["key"] == key) < (4 if exposed else 12):
-            j = "x"
+        by_key.setdefault(key, []).append((n, st, lg, d))
+    shr = Shrinker(ctx, time.time() + ctx.scale(45, 300))
+    for key in sorted(by_key):
+        for (n, st, lg, d) in by_key[key][:2]:
+            c = shr.shrink(cases[n], key)
+            st2, lg2 = run_impl(ctx, [c], ["m%d" % n], "shrink", 2000, 1)[0]
+            mlog = simulate(*c)[0]
+            d2, key2 = classify(c, mlog, st2, lg2)
+            if (st2 == "ok" and lg2 == plain(mlog)) or key2 != key:
+                c, st2, lg2, mlog, d2 = cases[n], st, lg, mlogs[n], d
             failures.append({
                 "key": key,
-                "what": ("a retried call to a dynamic predicate does not deliver the clauses that were alive when it started "
-                         "(logical update view violated)" if st != "timeout" else
-                         "a retried call to a dynamic predicate loops forever after an update (never delivers its remaining clauses)"),
-                "input": driver(j, *cases[n]) + "?- run_x, log_x(L).",
-                "case": case_text(cases[n]),
-                "impl": "%s; log: %s" % (st, fmt_log(lg)),
-                "spec": "log: %s" % fmt_log(plain),
-                "first_divergence_at_event": d,
+                "what": "the event log of a driver over dynamic predicates differs from the log required by the logical update view",
+                "input": driver("x", *c) + "?- run_x, log_x(L).",
+                "case": case_text(c),
+                "impl": "%s; log: %s" % (st2[:300], fmt_log(lg2 or [])[:1500]),
+                "spec": "log: %s" % fmt_log(plain(mlog))[:1500],
+                "first_divergence_at_event": d2,
+                "occurrences_in_this_run": len(by_key[key]),
                 "property_fails": True})
     # ---- statistics
     nontrivial = sum(1 for i in infos if i["retries_after_update"] > 0 or i["rnext_gone"] > 0)
     dist = {"histories": len(cases), "dropped_too_long": dropped,
             "events_total": sum(len(l) for l in mlogs),
             "events_max": max(len(l) for l in mlogs),
+            "only_unindexed_predicates": sum(1 for c in cases if not indexable(c, 0) and not indexable(c, 1)),
             "with_retry_after_update": sum(1 for i in infos if i["retries_after_update"] > 0),
             "with_two_or_more_open_calls": sum(1 for i in infos if i["max_open"] >= 2),
             "with_retract_generator_meeting_gone_clause": sum(1 for i in infos if i["rnext_gone"] > 0),
             "with_update_under_open_call": sum(1 for i in infos if i["updates_under_open"] > 0),
-            "exposed_to_retry_stale_cc": sum(1 for i in infos if i["exposed"] > 0),
-            "not_exposed_and_retry_after_update": sum(1 for i in infos if i["exposed"] == 0 and i["retries_after_update"] > 0),
-            "failing": len(bad), "failure_kinds": fail_kinds,
+            "with_retry_where_cc_register_is_stale": sum(1 for i in infos if i["stale"] > 0),
+            "failing": len(failing), "failed_only_in_shared_machine": unreproduced, "failure_kinds": fail_kinds,
+            "seconds": {"impl": round(t_impl, 1), "coq": round(t_coq, 1)},
             "goal_kinds": {}}
     for c in cases:
         for g in c[3]:
@@ -492,11 +604,11 @@ def run(ctx):
         "evaluations": len(bools),
         "distinct_nontrivial": nontrivial,
         "rule": ("distinct drivers = conjunctions of 2-7 goals (nondeterministic calls, once-calls, retract/1 generators, assertz, asserta, "
-                 "once(retract), retractall, clause/2 and call listings) over an indexed predicate a/2 (constant first arguments: atoms, "
-                 "integers, compounds) and b/2 (variable or mixed first arguments), 0-5 initial clauses each, executed by chronological "
-                 "backtracking with every event logged; the complete log is compared in Coq with the model's log (check_run); "
-                 "non-trivial = a call is retried after its predicate was changed while it was open, or a retract/1 generator meets a "
-                 "clause that was retracted meanwhile"),
+                 "once(retract), retractall, clause/2 and call listings) over a/2 (facts with constant first arguments: atoms, integers, "
+                 "compounds -> first-argument indexing) and b/2 (rules whose first argument is a variable or a constant, all-variable in "
+                 "the `core` drivers -> no indexing), 0-5 initial clauses each, executed by chronological backtracking with every event "
+                 "logged; the complete log is compared in Coq with the model's log (check_s); non-trivial = a call is retried after its "
+                 "predicate was changed while it was open, or a retract/1 generator meets a clause that was retracted meanwhile"),
         "samples": samples,
         "distribution": dist,
         "failures": failures,
